@@ -143,10 +143,27 @@ def gen_arg(rng, depth=0):
     return V.build(V.rand_tree(rng, depth=2, budget=[rng.randint(1, 6)]))
 
 
+# arguments of ONE call that are equal (== and hash) without being the same: each must be printed as it would be on its own
+CONFUSABLE = [
+    [(0, 0), (0.0, 0.0), (False, False), (0, 0.0), (-0.0, 0)],
+    [(1, 0), (True, False), (1.0, 0.0), (1, False)],
+    [frozenset([1]), frozenset([True]), frozenset([1.0])],
+    [1, True, 1.0], [0, False, 0.0, -0.0],
+    [(1, (2, 3)), (1.0, (2, 3.0)), (True, (2.0, 3))],
+    ['a', 'a'], [(), ()], [b'k', b'k'],
+]
+
+
 def gen_holder(rng, depth=0):
     module, qualname = rng.choice(CALLABLE_IDS)
     fn = make_callable(module, qualname)
     mode = rng.random()
+    if mode < 0.1:
+        group_ = rng.choice(CONFUSABLE)
+        picks = [rng.choice(group_) for _ in range(rng.randint(2, 5))]
+        npos = rng.randint(0, len(picks))
+        names = rng.sample(KWNAMES, len(picks) - npos)
+        return Holder(fn, picks[:npos], list(zip(names, picks[npos:])), rng.choice(STYLES)), (module, qualname)
     if mode < 0.2:
         args = [rng.choice([[1, 2], {'k': 1}, (1, 2), [], {}, (), ['x' * 30, 'y' * 30, 'z' * 30], prettyprinter.comment([1, 2], 'hugged?'),
                             DictSub({'k': [1]}), NT2(1, [2]), {1, 2}, frozenset([1]), collections.OrderedDict([('a', 1)]), 'a plain string', 5])]
